@@ -4,6 +4,7 @@ import GoRedisModel.Model.Show
 import GoRedisModel.Proofs.Interleave
 import GoRedisModel.Model.RefStore
 import GoRedisModel.Model.Lifecycle
+import GoRedisModel.Model.Discipline
 /-! Line-protocol driver: one case per input line, one canonical result per output line.
 Built as the core-only executable `modeldriver`; the definitions it runs are the ones the theorems are about. -/
 open GoRedis
@@ -245,6 +246,7 @@ def handleLine (toks : List String) : String :=
   | "sys" :: ts => runSysCase ts
   | "xserve" :: ts => runXServe ts
   | "life" :: ts => runLifeCase ts
+  | "race" :: _ => racePrediction
   | "prep" :: "c12prog" :: ts => prepC12 ts
   | ["globall", n, ph] =>
     let pat := unhex ph
